@@ -19,9 +19,7 @@ RULE = (
 )
 TRUSTED = ["models: lean/SRVerif/Model/*.lean; specification: Spec.validSol in lean/SRVerif/Spec/Opt.lean"]
 ASSUMPTIONS = ["leaf syntenies non-empty with distinct families"]
-OPEN = [
-    'C04_unord_statement (family-placement clause for the unordered solvers) — see Properties/C04Un.lean when present; proved: lca, thl, exh, ordered solvers (C04Dp.lean)',
-]
+OPEN = []  # C04_unord proved in Properties/C04Un.lean (all inputs, no guard)
 
 CORPUS = [
     # fixed: F-SPFS-SLOSS0, F-USPFS-ALIAS, F-THL-UNREACHABLE
